@@ -118,23 +118,28 @@ Proof.
 Qed.
 
 (* ---------- teardown and discovery keep the data ---------- *)
-Lemma kd_clean_entity s en : map kd (lfeats (clean_entity_caches s en)) = map kd (lfeats s).
-Proof. unfold clean_entity_caches. destruct (re_dev en); [|reflexivity]. simpl. apply kd_map. reflexivity. Qed.
+Lemma kd_clean_entity s d a : map kd (lfeats (clean_entity_caches s d a)) = map kd (lfeats s).
+Proof. unfold clean_entity_caches. destruct d; [|reflexivity]. simpl. apply kd_map. reflexivity. Qed.
 
 Lemma kd_clean_device s d : map kd (lfeats (clean_device_caches s d)) = map kd (lfeats s).
 Proof. unfold clean_device_caches. destruct d; [|reflexivity]. simpl. apply kd_map. reflexivity. Qed.
 
-Lemma remove_entities_kd l : forall s p s' evs err,
-  remove_entities s p l = (s', evs, err) -> map kd (lfeats s') = map kd (lfeats s).
+Lemma remove_entity_kd s p a s' evs : remove_entity s p a = (s', evs) -> map kd (lfeats s') = map kd (lfeats s).
 Proof.
-  induction l as [|de r IH]; intros s p s' evs err H.
+  intros H. rewrite remove_entity_unfold in H. destruct (find_peer s p) as [pe|]; [|inversion H; reflexivity].
+  destruct (find_rent pe a) as [en|]; [|inversion H; reflexivity].
+  cbv zeta in H. unfold remove_for_entity in H. inversion H; subst. rewrite kd_clean_entity. reflexivity.
+Qed.
+
+Lemma remove_unlisted_kd listed es : forall s p s' evs,
+  remove_unlisted s p listed es = (s', evs) -> map kd (lfeats s') = map kd (lfeats s).
+Proof.
+  induction es as [|a r IH]; intros s p s' evs H.
   - simpl in H. inversion H; reflexivity.
-  - rewrite remove_entities_cons in H. destruct (find_peer s p) as [pe|]; [|inversion H; reflexivity].
-    destruct (negb (check_entity pe de)); [inversion H; reflexivity|].
-    destruct (find_rent pe (de_addr de)) as [en|]; [|exact (IH _ _ _ _ _ H)].
-    cbv zeta in H. unfold remove_for_entity in H.
-    match type of H with context [remove_entities ?s3 p r] => destruct (remove_entities s3 p r) as [[s4 evs2] err2] eqn:Er end.
-    inversion H; subst. rewrite (IH _ _ _ _ _ Er), kd_clean_entity. reflexivity.
+  - simpl in H. destruct (existsb (eqb_eaddr a) listed || eqb_eaddr a [0%N]); [exact (IH _ _ _ _ H)|].
+    destruct (remove_entity s p a) as [s1 evs1] eqn:E1.
+    destruct (remove_unlisted s1 p listed r) as [s2 evs2] eqn:E2.
+    inversion H; subst. rewrite (IH _ _ _ _ E2). exact (remove_entity_kd _ _ _ _ _ E1).
 Qed.
 
 Lemma notify_entries_kd l : forall s p m s' evs err,
@@ -144,17 +149,29 @@ Proof.
   - simpl in H. inversion H; reflexivity.
   - rewrite notify_entries_cons in H. destruct (de_state de) as [[|]|]; [| |inversion H; reflexivity].
     + destruct (find_peer s p) as [pe|]; [|inversion H; reflexivity].
-      destruct (negb (all_checked pe (dm_ents m))).
-      * cbv zeta in H. match type of H with context [add_entities pe m ?ok] => destruct (add_entities pe m ok) as [pe1 cr] end.
-        inversion H; reflexivity.
-      * destruct (add_entities pe m (dm_ents m)) as [pe1 created].
-        cbv zeta in H. destruct (notify_entries (set_peer s pe1) p m r) as [[s2 evs2] err2] eqn:Er.
-        inversion H; subst. exact (IH _ _ _ _ _ _ Er).
-    + destruct (remove_entities s p (dm_ents m)) as [[s1 evs1] err1] eqn:Er1.
-      pose proof (remove_entities_kd _ _ _ _ _ _ Er1) as H1.
-      destruct err1; [inversion H; subst; exact H1|].
+      destruct (negb (check_entity pe de)); [inversion H; reflexivity|].
+      destruct (add_entities pe m [de]) as [pe1 created].
+      destruct (notify_entries (set_peer s pe1) p m r) as [[s2 evs2] err2] eqn:Er.
+      inversion H; subst. exact (IH _ _ _ _ _ _ Er).
+    + destruct (find_peer s p) as [pe|]; [|inversion H; reflexivity].
+      destruct (negb (check_removed pe de)); [inversion H; reflexivity|].
+      destruct (remove_entity s p (de_addr de)) as [s1 evs1] eqn:E1.
       destruct (notify_entries s1 p m r) as [[s2 evs2] err2] eqn:Er.
-      inversion H; subst. rewrite (IH _ _ _ _ _ _ Er). exact H1.
+      inversion H; subst. rewrite (IH _ _ _ _ _ _ Er). exact (remove_entity_kd _ _ _ _ _ E1).
+Qed.
+
+Lemma handle_device_added_kd s1 p pe pe1 l0 :
+  map kd (lfeats (handle_device_added s1 p pe pe1 l0)) = map kd (lfeats s1).
+Proof.
+  unfold handle_device_added.
+  set (s1a := if reply_completes pe pe1 then _ else s1).
+  assert (H1a : lfeats s1a = lfeats s1).
+  { unfold s1a. destruct (reply_completes pe pe1); [|reflexivity]. destruct l0; reflexivity. }
+  assert (Hu : forall d0, map kd (lfeats (upd_lfeat s1a [0%N] 0 (add_client_ref true (nm_addr (Some d0))))) = map kd (lfeats s1)).
+  { intros d0. rewrite kd_upd by (intros x; reflexivity). rewrite H1a. reflexivity. }
+  destruct (match remote_feature pe (nm_addr None) with Some (_, rf) => rf_dev rf | None => None end) as [d0|].
+  - destruct (peer_by_addr s1a d0); [apply Hu | rewrite H1a; reflexivity].
+  - destruct (p_addr pe1) as [d1|]; [|rewrite H1a; reflexivity]. destruct (peer_by_addr s1a d1); [apply Hu | rewrite H1a; reflexivity].
 Qed.
 
 Lemma disconnect_kd s p : map kd (lfeats (fst (disconnect s p))) = map kd (lfeats s).
@@ -198,8 +215,8 @@ Proof.
     unfold with_source. destruct (find_peer s p) as [pe|]; [|reflexivity].
     destruct (remote_feature pe (nm_addr None)); [|reflexivity].
     destruct (add_entities _ m (dm_ents m)) as [pe1 created].
-    destruct (p_addr pe1); simpl fst; [|reflexivity].
-    rewrite kd_upd by (intros x; reflexivity). reflexivity.
+    destruct (remove_unlisted _ p _ _) as [s3 evs] eqn:Eu. simpl fst.
+    rewrite (remove_unlisted_kd _ _ _ _ _ _ Eu), handle_device_added_kd. reflexivity.
   - (* DiscoveryNotify *)
     unfold with_source. destruct (find_peer s p) as [pe|]; [|reflexivity].
     destruct (remote_feature pe (nm_addr None)); [|reflexivity].
@@ -360,11 +377,10 @@ Proof.
     constructor; cbn [w auth store]; [reflexivity | | exact (storeok_kd _ _ _ Hk (inv_store _ _ I)) | exact Hb1].
     rewrite (inv_auth _ _ I), drop_peer_abs, connect_binds by exact Hok. reflexivity.
   - (* DiscoveryReply *)
-    cbn [mon]. unfold advance. rewrite Hw. rewrite reply_no_gone, drop_gone_nil. split; [reflexivity|].
-    pose proof (neutral_ops_frame s (DiscoveryReply p m0) eq_refl) as Hf.
+    cbn [mon]. unfold advance. rewrite Hw. split; [reflexivity|].
     pose proof (neutral_ops_kd s (DiscoveryReply p m0) eq_refl) as Hk.
-    destruct (step s (DiscoveryReply p m0)) as [s1 out]. destruct Hf as [[Hbb _] _]. simpl fst in *.
-    constructor; simpl; [reflexivity | rewrite Hbb; exact (inv_auth _ _ I) | exact (storeok_kd _ _ _ Hk (inv_store _ _ I)) | exact Hb1].
+    constructor; cbn [w auth store]; [reflexivity | | exact (storeok_kd _ _ _ Hk (inv_store _ _ I)) | exact Hb1].
+    rewrite (inv_auth _ _ I), after_reply_abs, discovery_reply_binds by exact Hok. reflexivity.
   - (* DiscoveryNotify *)
     cbn [mon]. unfold advance. rewrite Hw. split; [reflexivity|].
     pose proof (neutral_ops_kd s (DiscoveryNotify p ctr ack m0) eq_refl) as Hk.
